@@ -60,6 +60,13 @@ type GhostUpdate struct {
 	Val    SExpr
 }
 
+// Invoke: higher-order step of an (assumed) callee contract. The closure literal passed for Param is executed
+// inline at the call site with a freshly allocated object bound to Name (after the ghost initialisations).
+type Invoke struct {
+	Param, Name string
+	Init        []GhostUpdate
+}
+
 type OnWrite struct {
 	TypeName, Field, Var string
 	Updates            []GhostUpdate
@@ -106,6 +113,7 @@ type FuncContract struct {
 	Absolute  bool
 	DefPkg    string
 	GhostUpd  []GhostUpdate
+	Invokes   []Invoke // invokes PARAM(NAME) [init G := E; ...]: the callee runs the closure passed as PARAM once, on a fresh object NAME
 	GhostSrc  []string
 	Trusts    []Clause
 	Watches   []GhostUpdate
@@ -144,7 +152,7 @@ func newContractSet(pkg string) *ContractSet {
 	return &ContractSet{PkgPath: pkg, Preds: map[string]*PredDef{}, Fns: map[string]*SpecFn{}, Funcs: map[string]*FuncContract{}}
 }
 
-var clauseKW = map[string]bool{"ghost": true, "pred": true, "fn": true, "axiom": true, "lemmadef": true, "onwrite": true, "onsend": true,
+var clauseKW = map[string]bool{"invokes": true, "ghost": true, "pred": true, "fn": true, "axiom": true, "lemmadef": true, "onwrite": true, "onsend": true,
 	"opaque": true, "transparent": true, "lenient": true, "callsite": true, "func": true, "params": true, "requires": true, "ensures": true, "modifies": true, "loop": true, "use": true,
 	"inline": true, "assumed": true, "overflow": true, "safety": true, "pure": true, "effect": true, "watch": true, "trusts": true}
 
@@ -424,6 +432,30 @@ func loadContractFile(path string, prefixed bool, pkgPath string) (*ContractSet,
 					return nil, fmt.Errorf("%s: %v", where, err)
 				}
 				cur.LoopInv[n] = append(cur.LoopInv[n], Clause{e, src, rc.line})
+			case "invokes":
+				txt := rc.text
+				var init []GhostUpdate
+				if i := strings.Index(txt, " init "); i >= 0 {
+					ups, err := parseGhostUpdates(txt[i+6:], where)
+					if err != nil {
+						return nil, fmt.Errorf("%s: %v", where, err)
+					}
+					init = ups
+					txt = txt[:i]
+				}
+				e, err := parseSpec(txt)
+				if err != nil {
+					return nil, fmt.Errorf("%s: %v", where, err)
+				}
+				ic, ok := e.(*SCall)
+				if !ok || len(ic.Args) != 1 {
+					return nil, fmt.Errorf("%s: invokes PARAM(NAME) [init G := E; ...]", where)
+				}
+				nm, ok := ic.Args[0].(*SIdent)
+				if !ok {
+					return nil, fmt.Errorf("%s: invokes PARAM(NAME): NAME must be an identifier", where)
+				}
+				cur.Invokes = append(cur.Invokes, Invoke{Param: ic.Fun, Name: nm.Name, Init: init})
 			case "use":
 				e, err := parseSpec(rc.text)
 				if err != nil {
